@@ -1,6 +1,7 @@
 package main
 
 import (
+	"os"
 	"sort"
 	"fmt"
 	"go/ast"
@@ -368,21 +369,55 @@ func (e *Engine) verifyFuncPass(key string, pass int, proved map[string]bool) *F
 	res.File = shortPath(e.Fset.Position(fi.Decl.Pos()).Filename)
 	c := &FnCtx{eng: e, fi: fi, spec: spec, info: fi.Pkg.TypesInfo, loopOrd: map[ast.Stmt]int{}, callOrd: map[*ast.CallExpr]string{},
 		siteOrd: map[string]int{}, specNames: map[string]types.Object{}, safety: !spec.NoSafety, hintPass: pass, provedHints: proved}
-	// loop ordinals in source order
-	n := 0
+	// loop ordinals: contract loops with a `match` text are bound to the first free loop whose header contains it;
+	// the other loops are numbered in source order with the numbers that are left
+	var loops []ast.Stmt
 	ast.Inspect(fi.Decl.Body, func(nd ast.Node) bool {
 		switch s := nd.(type) {
 		case *ast.ForStmt:
-			n++
-			c.loopOrd[s] = n
+			loops = append(loops, s)
 		case *ast.RangeStmt:
-			n++
-			c.loopOrd[s] = n
+			loops = append(loops, s)
 		case *ast.FuncLit:
 			return false
 		}
 		return true
 	})
+	usedN := map[int]bool{}
+	if spec != nil {
+		var ns []int
+		for n, ls := range spec.Loops {
+			if ls.Match != "" {
+				ns = append(ns, n)
+			}
+		}
+		sort.Ints(ns)
+		for _, n := range ns {
+			for _, s := range loops {
+				if _, taken := c.loopOrd[s]; taken {
+					continue
+				}
+				if strings.Contains(loopHeader(e, s), spec.Loops[n].Match) {
+					c.loopOrd[s] = n
+					usedN[n] = true
+					break
+				}
+			}
+			// no header contains the text (the header was edited): the number stays free and is handed out
+			// in source order below, as for loops without a match key
+		}
+	}
+	next := 0
+	for _, s := range loops {
+		if _, taken := c.loopOrd[s]; taken {
+			continue
+		}
+		next++
+		for usedN[next] {
+			next++
+		}
+		c.loopOrd[s] = next
+	}
 	// ordinals of assignments to plain identifiers, per name, in source order ("after assign x#k")
 	c.assignOrd = map[ast.Stmt]string{}
 	cnt := map[string]int{}
@@ -400,9 +435,17 @@ func (e *Engine) verifyFuncPass(key string, pass int, proved map[string]bool) *F
 		}
 		return true
 	})
-	for ln := range spec.Loops {
-		if ln < 1 || ln > n {
-			c.unsupported(token.NoPos, "contract names loop %d but %s has %d loops", ln, key, n)
+	bound := map[int]bool{}
+	for _, n := range c.loopOrd {
+		bound[n] = true
+	}
+	for ln, ls := range spec.Loops {
+		if !bound[ln] {
+			if ls.Match != "" {
+				c.unsupported(token.NoPos, "contract loop %d of %s: no loop header contains %q and no loop is left for it", ln, key, ls.Match)
+			} else {
+				c.unsupported(token.NoPos, "contract names loop %d but %s has %d loops", ln, key, len(loops))
+			}
 		}
 	}
 	st := NewState()
@@ -970,4 +1013,22 @@ func (c *FnCtx) lemmaReaches(from, to string, seen map[string]bool) bool {
 		}
 	}
 	return false
+}
+
+// loopHeader: source text of a loop statement up to its body, white space normalised.
+func loopHeader(e *Engine, s ast.Stmt) string {
+	var body *ast.BlockStmt
+	switch x := s.(type) {
+	case *ast.ForStmt:
+		body = x.Body
+	case *ast.RangeStmt:
+		body = x.Body
+	}
+	start := e.Fset.Position(s.Pos())
+	end := e.Fset.Position(body.Lbrace)
+	data, err := os.ReadFile(start.Filename)
+	if err != nil || end.Offset > len(data) || start.Offset > end.Offset {
+		return ""
+	}
+	return strings.Join(strings.Fields(string(data[start.Offset:end.Offset])), " ")
 }
